@@ -79,7 +79,27 @@ def run(tier, seed):
             got = f"raised {type(ex).__name__}: {ex}"
         if got != want:
             viol.append({"id": "tag-message-altered", "witness": "tag:" + m[:12], "source": src, "got": got, "want": want})
-    return {"bound": f"all messages of <= {n} pieces over a {len(ALPHABET)}-piece alphabet x 5 filters; 9 counts x 4 plural forms; 6 tag messages", "cases": cases, "distinct": cases, "violations": viol, "sample": {"message": "100% %(name)s"}}
+    # the tag chooses its form by count exactly as NullTranslations.ngettext does
+    import gettext as _gt
+    null = _gt.NullTranslations()
+    for ctx in ("", ", context: 'c'"):
+        for n_ in (0, 1, 2, -1, "0", "1", "7", 0.0, 1.0, 2.5, None, "x", [1], float("inf"), True, False):
+            cases += 1
+            src = "{% translate count: n" + ctx + " %}S{% plural %}P{% endtranslate %}"
+            try:
+                k = int(n_) if isinstance(n_, (int, float, str)) and not isinstance(n_, bool) else 1
+            except (ValueError, OverflowError):
+                k = 1
+            if isinstance(n_, bool):
+                k = int(n_)
+            want = null.ngettext("S", "P", k)
+            try:
+                got = e.from_string(src).render(n=n_)
+            except Exception as ex:  # noqa: BLE001
+                got = f"raised {type(ex).__name__}"
+            if got != want:
+                viol.append({"id": "plural-choice", "witness": f"tag-plural:count={n_!r}", "source": src + f" n={n_!r}", "got": got, "want": want})
+    return {"bound": f"all messages of <= {n} pieces over a {len(ALPHABET)}-piece alphabet x 5 filters; 9 counts x 4 plural forms; 6 tag messages; 16 tag counts x with/without message context", "cases": cases, "distinct": cases, "violations": viol, "sample": {"message": "100% %(name)s"}}
 
 
 def replay(case):
